@@ -27,6 +27,9 @@ CLAIMED = {
  "C08": dict(cat="proof", ref="DESIGN.md 4 (C08), 9.2",
   text="GenerateKeyForChildSA is executed symbolically for every PRF (one lemma each), every ESP encryption key size and integrity algorithm including 'absent', every SK_d and nonce, on an IKE SA whose long-lived Prf_d object carries arbitrary buffered state from earlier use, and a second derivation is made on the same object: both are proved equal to slices of prf+(SK_d, Ni|Nr) computed on a freshly keyed HMAC in the order i2r encryption, i2r integrity, r2i encryption, r2i integrity with the RFC key lengths. Independence from the object's history rests on the per-iteration contract of lib.PrfPlus (reset before every block), which is an obligation of this property too.",
   note="ASSUMED at the call site: lib.PrfPlus's result is a function of (algorithm, key, seed, length) (see C07). Destination fields of the ChildSAKey are empty, as on every object the library's constructors produce (the function appends to them)."),
+ "C09": dict(cat="proof", ref="DESIGN.md 4 (C09), 9.2",
+  text="(1) The group constants held by the registries after init equal the RFC primes, which were derived for this check from the RFCs' defining formula (2^n - 2^(n-64) - 1 + 2^64*(floor(2^k*pi)+c)) with mpmath, not copied from the code; generator 2; modulus lengths 128/256. (2) For every exponent x >= 0 and peer value y >= 0 (math/big integers as mathematical integers, modexp uninterpreted): GetPublicValue = I2OSP(2^x mod p, L) and GetSharedKey = I2OSP(y^x mod p, L), exactly L octets with leading zeros preserved, compared octet by octet with a textbook computation over math/big in the lemma; the make(L - len) size is proved non-negative from modexp < p. (3) Agreement for both groups from the commutation law of modular exponentiation. (4) GenerateRandomNumber returns an unmodified crypto/rand.Int draw n with 2^128 <= n < 2^2048, and any failing read of the random source makes GenerateRandomNumber and NewIKESAKey return an error and no number / no SA / no public value.",
+  note="Assumed: math/big (SetString of constants evaluated, SetBytes/Bytes as OS2IP/I2OSP, Exp, Cmp), the number-theoretic law modexp(modexp(g,a,m),b,m) = modexp(modexp(g,b,m),a,m), crypto/rand.Int. Not decided: that successive exponents differ (distribution of the random source); termination of the rejection loop (probabilistic)."),
  "C10": dict(cat="proof", ref="DESIGN.md 4 (C10), 9.2",
   text="NewCrypto, Encrypt and Decrypt of the AES-CBC transform are executed symbolically for all three key sizes, every key and every plaintext / ciphertext (any length), with AES-CBC as an uninterpreted function over abstract byte strings and the single axiom CBCdec(k,iv,CBCenc(k,iv,x)) = x. Obligations: key accepted iff its length is the negotiated one and library-made objects carry no fixed IV/padding; size law len = 16+16k, n < 16k <= n+16; the leading 16 octets are exactly this call's successful draw from the system random source and the object retains nothing; the body decrypts under a textbook crypto/cipher CBC decrypter (written in the lemma) to the plaintext followed by padding whose last octet is 16k-n-1; any failing read of the random source yields an error and no ciphertext; Decrypt(Encrypt(p)) = p; short / misaligned / impossible-pad ciphertexts are refused and every possible pad length 0..255 is accepted with the textbook result.",
   note="'no IV repeats across calls' is a property of the random source's distribution and is not decided (only provenance: the IV is the call's own unmodified draw). The padding loop (<= 15 iterations) is unrolled completely with the unwinding assertion on. crypto/aes + crypto/cipher are assumed to be textbook AES-CBC."),
